@@ -229,6 +229,15 @@ class Eraser(ast.NodeTransformer):
                 s._kept = True
                 continue
             t = s.targets[0].id
+            # R13: tv = V; ti = I; x[ti] = tv  |->  x[I] = V   (value first, then index: the order of the original statement)
+            if idx + 1 < len(stmts) and idx >= 1:
+                pv, u = stmts[idx - 1], stmts[idx + 1]
+                if (isinstance(pv, ast.Assign) and len(pv.targets) == 1 and is_tmp(pv.targets[0]) and isinstance(u, ast.Assign)
+                        and len(u.targets) == 1 and isinstance(u.targets[0], ast.Subscript) and isinstance(u.targets[0].slice, ast.Name)
+                        and u.targets[0].slice.id == t and isinstance(u.value, ast.Name) and u.value.id == pv.targets[0].id):
+                    new_t = ast.Subscript(value=u.targets[0].value, slice=s.value, ctx=ast.Store())
+                    stmts[idx - 1: idx + 2] = [ast.Assign(targets=[new_t], value=pv.value)]
+                    continue
             j = idx + 1
             plain = []
             while j < len(stmts):
